@@ -375,6 +375,16 @@ macro_rules! c08_walkers {
             if let Some((v, dfs)) = r {
                 $ctx.mix(&v);
                 $crate::rep!($ctx, "Dfs", || format!("{} start {} emitted {:?}", desc(), s, v), o.check_emitted_set(&v, &want));
+                // a walker that was never sized for this graph (Default) and is brought up by reset + move_to
+                let w: Option<Vec<usize>> = $ctx.g("Dfs::default + reset + move_to", &desc, || {
+                    let mut d: Dfs<_, _> = Default::default();
+                    d.reset(g);
+                    d.move_to(enc.id(s));
+                    d.iter(g).take(n + 2).map(|x| enc.abs(x)).collect()
+                });
+                if w.as_ref().map_or(false, |w| w != &v) {
+                    $ctx.viol("Dfs::reset", "a default-constructed walker after reset + move_to differs from a new one", format!("{} start {}", desc(), s));
+                }
                 let it: Option<Vec<usize>> = $ctx.g("Dfs::iter", &desc, || Dfs::new(g, enc.id(s)).iter(g).take(n + 2).map(|x| enc.abs(x)).collect());
                 if it.as_ref().map_or(false, |it| it != &v) {
                     $ctx.viol("Dfs::iter", "Walker iterator yields a different sequence than next()", format!("{} start {}", desc(), s));
@@ -485,6 +495,15 @@ macro_rules! c08_walkers {
             if let Some((v, po)) = r {
                 $ctx.mix(&v);
                 $crate::rep!($ctx, "DfsPostOrder", || format!("{} start {} emitted {:?}", desc(), s, v), o.check_emitted_set(&v, &want).and_then(|_| o.check_postorder(&v)));
+                let w: Option<Vec<usize>> = $ctx.g("DfsPostOrder::default + reset + move_to", &desc, || {
+                    let mut d: DfsPostOrder<_, _> = Default::default();
+                    d.reset(g);
+                    d.move_to(enc.id(s));
+                    d.iter(g).take(n + 2).map(|x| enc.abs(x)).collect()
+                });
+                if w.as_ref().map_or(false, |w| w != &v) {
+                    $ctx.viol("DfsPostOrder::reset", "a default-constructed walker after reset + move_to differs from a new one", format!("{} start {}", desc(), s));
+                }
                 let it: Option<Vec<usize>> = $ctx.g("DfsPostOrder::iter", &desc, || DfsPostOrder::new(g, enc.id(s)).iter(g).take(n + 2).map(|x| enc.abs(x)).collect());
                 if it.as_ref().map_or(false, |it| it != &v) {
                     $ctx.viol("DfsPostOrder::iter", "Walker iterator yields a different sequence than next()", format!("{} start {}", desc(), s));
@@ -558,6 +577,14 @@ macro_rules! c08_topo {
                 $crate::rep!($ctx, "Topo", || format!("{} emitted {:?}", desc(), v), o.check_topo(&v, &want));
                 {
                     use petgraph::visit::Walker;
+                    let w: Option<Vec<usize>> = $ctx.g("Topo::default + reset", &desc, || {
+                        let mut t: Topo<_, _> = Default::default();
+                        t.reset(g);
+                        t.iter(g).take(n + 2).map(|x| enc.abs(x)).collect()
+                    });
+                    if w.as_ref().map_or(false, |w| w != &v) {
+                        $ctx.viol("Topo::reset", "a default-constructed walker after reset differs from a new one", format!("{}", desc()));
+                    }
                     let it: Option<Vec<usize>> = $ctx.g("Topo::iter", &desc, || Topo::new(g).iter(g).take(n + 2).map(|x| enc.abs(x)).collect());
                     if it.as_ref().map_or(false, |it| it != &v) {
                         $ctx.viol("Topo::iter", "Walker iterator yields a different sequence than next()", format!("{}", desc()));
